@@ -121,7 +121,7 @@ func TestPropPatherRounds(t *testing.T) {
 			for i, h := range hops {
 				h.mu.Lock()
 				thetaSeq++
-				h.theta, h.drop, h.refuse, h.round, h.recs = time.Duration(thetaSeq)*2*time.Second, false, false, 1000+round, nil
+				h.theta, h.drop, h.refuse, h.refuseFollowUps, h.round, h.recs = time.Duration(thetaSeq)*2*time.Second, false, false, false, 1000+round, nil
 				h.mu.Unlock()
 				_ = i
 			}
@@ -197,7 +197,7 @@ func TestPropIntraASRounds(t *testing.T) {
 			for _, h := range hops {
 				h.mu.Lock()
 				thetaSeq++
-				h.theta, h.drop, h.refuse, h.round, h.recs = time.Duration(thetaSeq)*2*time.Second, false, false, 2000+round, nil
+				h.theta, h.drop, h.refuse, h.refuseFollowUps, h.round, h.recs = time.Duration(thetaSeq)*2*time.Second, false, false, false, 2000+round, nil
 				h.mu.Unlock()
 			}
 			sp, err := (wire.PathSpec{Kind: "empty"}).SnetPath(lIA, lIA, hops[0].conn.LocalAddr().(*net.UDPAddr), nil)
